@@ -23,6 +23,7 @@ type CheckSpec struct {
 	Explanation string        `json:"explanation"`
 	Bounds      []string      `json:"bounds"`
 	Outside     []string      `json:"outside"`
+	Level       string        `json:"level,omitempty"`
 }
 
 type KnownFinding struct {
@@ -496,7 +497,7 @@ func cmdCheck(args []string) {
 		"harness_files":                 ld.Harness,
 	}
 	ev := map[string]any{
-		"property_id": *prop, "tier": *tier, "seed": seed, "level": "model_checking",
+		"property_id": *prop, "tier": *tier, "seed": seed, "level": levelOf(spec),
 		"coverage": cov, "assumptions": spec.Assumptions, "wall_s": round2(time.Since(t0).Seconds()),
 		"violations": confirmed,
 	}
@@ -671,4 +672,11 @@ func doReplay(repo, root, hdir, path string) int {
 	}
 	fmt.Println("not reproduced on the current tree")
 	return 0
+}
+
+func levelOf(spec CheckSpec) string {
+	if spec.Level != "" {
+		return spec.Level
+	}
+	return "model_checking"
 }
